@@ -134,7 +134,7 @@ pub fn plan(prop: &str) -> Option<Plan> {
             parts: vec![p("twin", "world", 36_000, 1_200_000), p("twin", "save", 36_000, 1_200_000), p("twin", "faults", 6_000, 100_000), p("twin", "bulkhuge", 900, 12_000)],
             cross_process: true,
             miri: vec![],
-            assumptions: vec![A_SAMPLING, "destructor order inside HashMapStorage::clear / world teardown and UuidMarker values are not part of the transcript (hash order / OS randomness by construction, and not among the observables the property lists)", "ahash's per-process random keys have no seam; they are varied by re-executing in other processes"],
+            assumptions: vec![A_SAMPLING, "destructor order inside HashMapStorage::clear / world teardown and UuidMarker values are not part of the transcript (hash order / OS randomness by construction, and not among the observables the property lists)", "ahash's per-process random keys have no seam; they are varied by re-executing in other processes", "clock jumps are injected at clock reads (clock_gettime) of the thread running the second twin execution; where the code under test reads no clock (counter clock_reads_by_code_under_simulated_clock = 0, as on the unchanged tree) none is applied and fault.clock_jump.applied stays 0"],
         },
         _ => return None,
     })
